@@ -10,7 +10,7 @@ import (
 	rt "github.com/Azbesciak/RealDecisionMaker/lib/zz_verifrt"
 )
 
-//verif:bounds C14 HC14_step: ONE step of each of the four generated series from an ARBITRARY valid state r (symbolic), coefficient symbolic in [0.001,0.999], minValue/maxValue symbolic over the documented ranges; K=2 criteria (gain and cost, the first optionally with a declared symbolic valuesRange, otherwise the range over 2 known alternatives of which one is not considered); covers series of any length by induction on the state
+//verif:bounds C14 HC14_step: ONE step of each of the four generated series from an ARBITRARY valid state r (symbolic), coefficient symbolic in [0.001,0.999], minValue/maxValue symbolic over the documented ranges; K=2 criteria (gain and cost, each optionally with a declared symbolic valuesRange, otherwise the range over 2 known alternatives of which one is not considered); the decision parameters must be untouched and a second evaluation over the same criteria must give the same levels; covers series of any length by induction on the state
 //verif:bounds C14 HC14_first_and_stop: initial level and stop rule exactly as documented, including minValue >= maxValue; HC14_validate: every parameter symbolic in [-1,2], rejection iff outside the documented ranges; HC14_unrolled: whole series (<= 12 levels) for concrete coefficient families against a reference series, through Find (mapstructure decoding of the JSON parameters); HC14_progress_fp: bit-precise (IEEE-754) check that one update changes the level for every valid state - so the float series cannot stall - with the coefficient symbolic in [0.001,0.999] for the additive/subtractive rules and taken from 8 constants for the two multiplicative rules (symbolic x symbolic float products returned unknown after 120 s)
 //verif:outside C14: series longer than 12 levels are covered by the inductive step only; finiteness is arithmetic on the proved step bounds (increasing: r' >= min(r+0.001,1); subtractive: r' <= r-0.001 or 0; multiplied decreasing: r' <= 0.999 r with minValue > 0), not a separate solver obligation; coefficients below 0.001 (accepted by Validate but outside the statement's quantifier) can stall the float series - see C20
 
@@ -39,13 +39,23 @@ func c14pick() c14variant {
 
 func c14dmp() (*model.DecisionMakingParams, model.Criteria, []model.AlternativeWithCriteria) {
 	crit := model.Criteria{{Id: "c1", Type: model.Gain}, {Id: "c2", Type: model.Cost}}
-	if rt.Bool("declared-range") {
-		lo, hi := rt.Float("range.lo"), rt.Float("range.hi")
-		rt.Assume(lo < hi)
-		crit[0].ValuesRange = &utils.ValueRange{Min: lo, Max: hi}
+	switch rt.OneOf("declared-range", "none", "gain", "cost", "both") {
+	case "gain":
+		crit[0].ValuesRange = c14declared("g")
+	case "cost":
+		crit[1].ValuesRange = c14declared("c")
+	case "both":
+		crit[0].ValuesRange = c14declared("g")
+		crit[1].ValuesRange = c14declared("c")
 	}
 	known := vh.Alternatives("", vh.AltIds[:2], crit)
 	return vh.Params(known, []string{"a"}, crit, nil), crit, known
+}
+
+func c14declared(px string) *utils.ValueRange {
+	lo, hi := rt.Float(px+".range.lo"), rt.Float(px+".range.hi")
+	rt.Assume(lo < hi)
+	return &utils.ValueRange{Min: lo, Max: hi}
 }
 
 // documented range of a criterion: declared, otherwise over all known alternatives
@@ -98,6 +108,7 @@ func HC14_step() {
 	dmp, crit, known := c14dmp()
 	coef, lo, hi := c14validParams(v)
 	s := c14new(v, coef, lo, hi)
+	inputSnap := rt.Snapshot(dmp)
 	s.Initialize(dmp)
 	// an arbitrary valid state at which a further level exists
 	r := rt.FloatIn("r", 0, 1)
@@ -128,6 +139,15 @@ func HC14_step() {
 		}
 	}
 	rt.Assert("C14.thresholds-only-for-criteria", len(t) == len(crit))
+	rt.Assert("C14.decision-parameters-untouched(declared ranges included)", rt.Same(inputSnap, dmp))
+	// a second evaluation over the same criteria objects yields the same levels
+	s2 := c14new(v, coef, lo, hi)
+	s2.Initialize(dmp)
+	s2.currentValue = r
+	t2 := s2.Next()
+	for i := range crit {
+		rt.Assert("C14.second-evaluation-same-thresholds", t2[crit[i].Id] == t[crit[i].Id])
+	}
 	r2 := s.currentValue
 	rt.Assert("C14.update-rule", r2 == c14update(v, r, coef))
 	if v.increasing {
